@@ -898,6 +898,15 @@ class MultiRangeSubsetState(SubsetState):
     def copy(self):
         return MultiRangeSubsetState(self.pairs, self.att)
 
+    def __gluestate__(self, context):
+        return dict(pairs=[[context.do(lo), context.do(hi)] for lo, hi in self.pairs],
+                    att=context.id(self.att))
+
+    @classmethod
+    def __setgluestate__(cls, rec, context):
+        pairs = [(context.object(lo), context.object(hi)) for lo, hi in rec['pairs']]
+        return cls(pairs, context.object(rec['att']))
+
 
 class CategoricalROISubsetState2D(SubsetState):
     """
@@ -1245,6 +1254,13 @@ class MultiOrState(SubsetState):
 
     def __str__(self):
         return "('or' combination of {0} individual states)".format(len(self.states))
+
+    def __gluestate__(self, context):
+        return dict(states=[context.id(state) for state in self.states])
+
+    @classmethod
+    def __setgluestate__(cls, rec, context):
+        return cls([context.object(state) for state in rec['states']])
 
 
 class MaskSubsetState(SubsetState):
